@@ -79,6 +79,7 @@ struct Plan
     std::vector<uint8_t> schedule;
     bool hash_images = false;      // not serialised: set by the property's case function
     bool interleaved_first = false; // C15: the interleaved run precedes every solo run of the case
+    bool share_options = false;    // every task passes ONE long-lived parse_options object (set anew before each call) to all its calls
     bool share_streams = false;    // every task uses ONE long-lived std::ostream object for all its STR_SIM calls
 };
 
